@@ -223,8 +223,11 @@ func New(cfg *Config) (*World, error) {
 		w.Base[0] = Base{Root: *root, Valid: true, Contents: Contents{M: map[int]int{}}}
 	}
 	for _, op := range cfg.Seed {
-		r := w.Apply(op)
-		if r.Err != nil || r.Panic != nil {
+		if !w.Enabled(op) {
+			return nil, fmt.Errorf("seed op %v not enabled", op)
+		}
+		// an op of a stored history may legitimately have failed (e.g. a delete of an absent key)
+		if r := w.Apply(op); r.Panic != nil {
 			return nil, fmt.Errorf("seed op %v: %v", op, r)
 		}
 	}
